@@ -338,7 +338,7 @@ func genC19(r *fw.Run, rng *rand.Rand, n int) []*c19Case {
 	// the grammar
 	for len(out) < n {
 		tail := tails[rng.Intn(len(tails))]
-		switch rng.Intn(28) {
+		switch rng.Intn(30) {
 		case 0:
 			add(func() string { return "unix:"+newPath()+tail }, "absolute path", "valid")
 		case 1:
@@ -405,6 +405,10 @@ func genC19(r *fw.Run, rng *rand.Rand, n int) []*c19Case {
 			}, "path length near the limit", "")
 		case 23:
 			add(func() string { return "unix:" + newPath() + "/" + tail }, "trailing slash", "")
+		case 28:
+			add(func() string { return "unix:" + newPath() + []string{"@1000", "@", "a@b.c", "@@"}[rng.Intn(4)] + tail }, "'@' inside a filesystem path", "valid")
+		case 29:
+			add(func() string { k++; return fmt.Sprintf("unix:rel%d%s%s", k, []string{"@1", "@", ".@."}[rng.Intn(3)], tail) }, "'@' inside a relative path", "valid")
 		case 24, 25, 26, 27:
 			// free composition: protocol part, separator, 0-4 body tokens, tail - whatever comes out is judged by c19Classify alone
 			protos := []string{"unix", "unix", "unix", "tcp", "tcp", "", "UNIX", "unix ", " tcp", "unixx", "tc", "@", "é"}
@@ -476,7 +480,7 @@ func replayC19(r *fw.Run, raw json.RawMessage) {
 func init() {
 	fw.Register(&fw.Engine{
 		ID: "C19", Level: "exploration",
-		Rule: "a case = (address string, entry point Bind or Listen, what the same Service object did before: nothing / a valid Bind that was never served / a full serve+shutdown, pre-existing file at the path: none / stale socket / regular file). Strings come from an address grammar: protocol in {unix, tcp, upper/mixed case, other Go network names, blanks, empty, missing}; bodies: absolute path in the work directory, relative path, '@name', '@', empty, path in a missing directory, over-long path, colons and unicode in the path, host:port, ':port', port only, IPv6, port 0, bad port, bad IP, empty; each with one of 6 ';parameter' tails (incl. ';' directly after the colon); plus random printable strings, plus free compositions (any of 13 protocol parts, 9 separators, 0-4 of 20 body tokens, tail; client reachability over tcp only asserted when the string names a concrete loopback port). Oracle: never a panic from Bind, Listen or NewConnection; strings lacking '<protocol>:', naming another protocol or an empty unix path => an error, whatever was bound before; forms listed as valid => success; whenever binding succeeds a client created with the SAME string completes a GetInfo round trip with this service's unique product string (so both sides drop the same ';' tail and agree on '@'); '@name': no filesystem entry, raw dial of \\0name is served; filesystem sockets: the path is a socket after bind (stale socket / file replaced) and gone after Shutdown made serving return; after every outcome the same object binds a fresh valid address and serves it. distinct by (form, entry, before, pre, tail, shape of a free composition).",
+		Rule: "a case = (address string, entry point Bind or Listen, what the same Service object did before: nothing / a valid Bind that was never served / a full serve+shutdown, pre-existing file at the path: none / stale socket / regular file). Strings come from an address grammar: protocol in {unix, tcp, upper/mixed case, other Go network names, blanks, empty, missing}; bodies: absolute path in the work directory, relative path, '@name', '@', empty, path in a missing directory, over-long path, colons, unicode and '@' (not in first place) in the path, host:port, ':port', port only, IPv6, port 0, bad port, bad IP, empty; each with one of 6 ';parameter' tails (incl. ';' directly after the colon); plus random printable strings, plus free compositions (any of 13 protocol parts, 9 separators, 0-4 of 20 body tokens, tail; client reachability over tcp only asserted when the string names a concrete loopback port). Oracle: never a panic from Bind, Listen or NewConnection; strings lacking '<protocol>:', naming another protocol or an empty unix path => an error, whatever was bound before; forms listed as valid => success; whenever binding succeeds a client created with the SAME string completes a GetInfo round trip with this service's unique product string (so both sides drop the same ';' tail and agree on '@'); '@name': no filesystem entry, raw dial of \\0name is served; filesystem sockets: the path is a socket after bind (stale socket / file replaced) and gone after Shutdown made serving return; after every outcome the same object binds a fresh valid address and serves it. distinct by (form, entry, before, pre, tail, shape of a free composition).",
 		Assumptions: []string{"unix:@ (kernel autobind) and port 0 are judged for totality only", "no host names are generated (the sandbox has no resolver)"},
 		Run:         runC19, Replay: replayC19, CrashIsViolation: true, MinEvals: 100,
 		QuickTimeout: 15 * time.Minute, ThoroughTimeout: 60 * time.Minute,
